@@ -381,9 +381,15 @@ static void check_function_returns(TypeChecker *tc, ASTNode *fn) {
 /* The symbol table keeps every local for the later compilation stages, so a scope is not
  * ended by truncating it: the symbols declared since 'from' are marked instead, and name
  * lookups skip marked symbols while the program is being type checked. */
-static void close_scope(Environment *env, int from) {
+static void close_scope(Environment *env, int from, const ASTNode *scope) {
     for (int i = from; i < env->symbol_count; i++) {
         env->symbols[i].scope_closed = true;
+        /* The later stages look names up by source position: tell them where this scope ends
+         * (the innermost scope closes first and its end is the one that counts) */
+        if (scope && scope->end_line > 0 && env->symbols[i].scope_end_line == 0) {
+            env->symbols[i].scope_end_line = scope->end_line;
+            env->symbols[i].scope_end_column = scope->end_column;
+        }
     }
 }
 
@@ -2988,7 +2994,7 @@ static Type check_expression_impl(ASTNode *expr, Environment *env) {
                  * to remain in the environment for the lifetime of the compilation unit.
                  * This is safe because each arm's binding uses a unique name from the source code.
                  */
-                close_scope(env, saved_symbol_count);
+                close_scope(env, saved_symbol_count, expr->as.match_expr.arm_bodies[i]);
                 
                 /* First arm determines return type */
                 if (i == 0) {
@@ -3725,7 +3731,7 @@ static Type check_statement_impl(TypeChecker *tc, ASTNode *stmt) {
              * needed to look up loop variables. Loop variables are scoped by C's block
              * scope rules, so keeping them in the environment doesn't cause collisions.
              */
-            close_scope(tc->env, for_scope_start);
+            close_scope(tc->env, for_scope_start, stmt->as.for_stmt.body);
 
             return TYPE_VOID;
         }
@@ -3790,7 +3796,7 @@ static Type check_statement_impl(TypeChecker *tc, ASTNode *stmt) {
             for (int i = 0; i < stmt->as.block.count; i++) {
                 last_type = check_statement(tc, stmt->as.block.statements[i]);
             }
-            close_scope(tc->env, block_scope_start);
+            close_scope(tc->env, block_scope_start, stmt);
             return last_type;
         }
 
@@ -3818,7 +3824,7 @@ static Type check_statement_impl(TypeChecker *tc, ASTNode *stmt) {
             for (int i = 0; i < stmt->as.unsafe_block.count; i++) {
                 check_statement(tc, stmt->as.unsafe_block.statements[i]);
             }
-            close_scope(tc->env, unsafe_scope_start);
+            close_scope(tc->env, unsafe_scope_start, stmt);
             
             /* Restore previous unsafe state */
             tc->in_unsafe_block = prev_unsafe;
@@ -3986,7 +3992,7 @@ static Type check_statement_impl(TypeChecker *tc, ASTNode *stmt) {
                  * to remain in the environment for the lifetime of the compilation unit.
                  * This is safe because each arm's binding uses a unique name from the source code.
                  */
-                close_scope(tc->env, arm_scope_start);
+                close_scope(tc->env, arm_scope_start, arm);
             }
 
             return TYPE_VOID;
@@ -4075,6 +4081,12 @@ static Type check_statement_impl(TypeChecker *tc, ASTNode *stmt) {
                         Value dummy_val = {0};
                         env_define_var(tc->env, stmt->as.function.params[p].name,
                                       stmt->as.function.params[p].type, true, dummy_val);
+                        /* Located like the parameters of a top-level function: a symbol without a
+                         * position loses against any located outer symbol of the same name when
+                         * names are looked up by position, i.e. it would not shadow it. */
+                        Symbol *nested_param = &tc->env->symbols[tc->env->symbol_count - 1];
+                        nested_param->def_line = stmt->line;
+                        nested_param->def_column = stmt->column;
                     }
                     /* 'return' inside the nested function is checked against ITS return type */
                     Type saved_ret = tc->current_function_return_type;
@@ -4083,7 +4095,7 @@ static Type check_statement_impl(TypeChecker *tc, ASTNode *stmt) {
                     tc->current_function_return_struct_name = stmt->as.function.return_struct_type_name;
                     check_statement(tc, stmt->as.function.body);
                     check_function_returns(tc, stmt);
-                    close_scope(tc->env, nested_scope_start);
+                    close_scope(tc->env, nested_scope_start, stmt->as.function.body);
                     tc->current_function_return_type = saved_ret;
                     tc->current_function_return_struct_name = saved_ret_struct;
                 }
@@ -6009,7 +6021,7 @@ sdef.is_pub = item->as.struct_def.is_pub;            /* Propagate public visibil
              * the struct_type_name metadata. Now we keep all symbols so transpiler
              * can access type information. C's function-local scope prevents collisions.
              */
-            close_scope(env, saved_symbol_count);
+            close_scope(env, saved_symbol_count, item->as.function.body);
 
             /* Verify function has shadow test (skip for extern functions, main, and functions that use extern functions) */
             Function *func = env_get_function(env, item->as.function.name);
@@ -6710,7 +6722,7 @@ sdef.is_pub = item->as.struct_def.is_pub;            /* Propagate public visibil
              * the struct_type_name metadata. Now we keep all symbols so transpiler
              * can access type information. C's function-local scope prevents collisions.
              */
-            close_scope(env, saved_symbol_count);
+            close_scope(env, saved_symbol_count, item->as.function.body);
 
             /* Verify function has shadow test (skip for extern functions, main, and functions that use extern functions) */
             Function *func = env_get_function(env, item->as.function.name);
